@@ -400,13 +400,18 @@ func (txmp *TxMempool) Update(
 		txmp.postCheck = newPostFn
 	}
 
+	// A block may contain the same transaction more than once (e.g. a replay
+	// that fails in DeliverTx): a transaction that was committed successfully
+	// must stay in the cache even if a later occurrence of it failed.
+	committed := make(map[types.TxKey]struct{}, len(blockTxs))
 	for i, tx := range blockTxs {
 		// Add successful committed transactions to the cache (if they are not
 		// already present).  Transactions that failed to commit are removed from
 		// the cache unless the operator has explicitly requested we keep them.
 		if deliverTxResponses[i].Code == abci.CodeTypeOK {
 			_ = txmp.cache.Push(tx)
-		} else if !txmp.config.KeepInvalidTxsInCache {
+			committed[tx.Key()] = struct{}{}
+		} else if _, ok := committed[tx.Key()]; !ok && !txmp.config.KeepInvalidTxsInCache {
 			txmp.cache.Remove(tx)
 		}
 
